@@ -12,7 +12,8 @@ Oracles (none may be dropped or merged; every one keeps its own identity):
             schema i.  The models package has a dataclass with field set {p<i>} for every i and Holder.h<i> is annotated with it.
   enum    : string enum E with the raw names as values.  E has exactly these values as members.
   ops     : one GET operation per raw name (operationId = raw name, path /r<i>) in one tag.  Every path is reachable through
-            its own method of the tag client.
+            its own method of the tag client.   ops_multitag: the same, but all operations except the first carry another tag
+            first and reach the common tag client through their second tag.
 """
 
 from __future__ import annotations
@@ -24,7 +25,7 @@ import typing
 from .. import domain, drive, genrun, hyp
 from ..runner import Collector, Violation
 
-NAMESPACES = ["props", "params", "schemas", "enum", "ops"]
+NAMESPACES = ["props", "params", "schemas", "enum", "ops", "ops_multitag"]
 
 # a fixed cluster whose members collide with each other or with the suffixed name handed to another member
 CLUSTER = ["foo-bar", "foo_bar", "fooBar", "FooBar", "foo bar", "foo.bar", "FOO_BAR", "foo_bar_1", "foo_bar_2", "foo-bar-1", "fooBar1", "foo_bar1", "foo__bar", "_foo_bar", "foo_bar_"]
@@ -69,6 +70,10 @@ def build_spec(ns: str, names: list[str]) -> dict:
     elif ns == "ops":
         for i, n in enumerate(names):
             spec["paths"][f"/r{i}"] = {"get": {"operationId": n, "tags": ["t"], "responses": ok}}
+    elif ns == "ops_multitag":
+        # the operations meet in client t, but all except the first reach it through their SECOND tag
+        for i, n in enumerate(names):
+            spec["paths"][f"/r{i}"] = {"get": {"operationId": n, "tags": ["t"] if i == 0 else [f"u{i % 2}", "t"], "responses": ok}}
     return spec
 
 
@@ -172,11 +177,11 @@ def run_case(case: dict) -> tuple[list[Violation], str]:
                             sent = dict(raw.get("params") or {})
                             if sorted(sent) != sorted(names) or len(set(map(str, sent.values()))) != k:
                                 viols.append(Violation(("collide", ns, "wire_names_merged"), f"names={names!r}: sent {sent!r}"))
-            elif ns == "ops":
+            elif ns in ("ops", "ops_multitag"):
                 found, problems = sess.discover()
                 used = set()
                 for i in range(k):
-                    where = found.get(("GET", f"/r{i}")) or []
+                    where = [w for w in (found.get(("GET", f"/r{i}")) or []) if w[0] == "t"]  # methods of tag client t
                     free = [w for w in where if tuple(w) not in used]
                     if not free:
                         viols.append(Violation(("collide", ns, "dropped_or_merged"), f"names={names!r}: /r{i} ({names[i]!r}) has no method of its own; found {sorted(found.items())!r}"[:400]))
@@ -215,6 +220,7 @@ def nontrivial(case: dict) -> bool:
     from pyopenapi_gen.core.utils import NameSanitizer
 
     fn = {"props": NameSanitizer.sanitize_method_name, "params": NameSanitizer.sanitize_method_name, "ops": NameSanitizer.sanitize_method_name,
+          "ops_multitag": NameSanitizer.sanitize_method_name,
           "schemas": NameSanitizer.sanitize_class_name, "enum": lambda s: s.upper().replace("-", "_").replace(" ", "_")}[case["ns"]]
     try:
         d = [fn(n) for n in case["names"]]
